@@ -152,6 +152,56 @@ fn run() {
     }
 }
 
+/// found missing by seed C13i: "the same rollback as any other contract error" also means the same
+/// CATCHING: a malformed response inside a sub-message sent with reply_on Error / Always is handed to the
+/// caller's reply like any failure — the caller's writes and its reply's writes stay, the callee's go
+fn malformed_response_in_a_caught_submessage() {
+    let adapted = choose(2) == 1;
+    let mut w = crate::tree::world_of(2, adapted);
+    let (k0, k1, user) = (w.ks[0].clone(), w.ks[1].clone(), w.user.clone());
+    let wh = [Where::RespAttr, Where::EventAttr, Where::EventType][choose(3)];
+    // malformed strings only (one of each sort), and a plain failure as the reference
+    let bad_keys = ["", "  ", "_x", " _x"];
+    let bad_types = ["", "a", " a "];
+    let reference = choose(2) == 1;
+    let s = match wh {
+        Where::EventType => bad_types[choose(bad_types.len())],
+        _ => bad_keys[choose(bad_keys.len())],
+    };
+    let callee = if reference { Script::new().write("touched", "1").fail("ordinary failure") } else { Script::new().write("touched", "1").then(bad_step(wh, s, "v")) };
+    let mode = [ReplyOn::Error, ReplyOn::Always][choose(2)].clone();
+    let outer = Script::new().write("outer", "1").sub(
+        WasmMsg::Execute { contract_addr: k1.to_string(), msg: callee.bin(), funds: vec![] },
+        mode,
+        1,
+        Some(Script::new().write("handled", "1")),
+    );
+    sc::trace_clear();
+    let r = catch(|| w.app.execute_contract(user.clone(), k0.clone(), &outer, &[]));
+    match r {
+        Err(p) => failure("no_panic", "panic", p),
+        Ok(Err(e)) => {
+            check_native("rejected_response_is_caught_like_any_other_failure", false, || format!("{:?} {:?} (reference: {}): {:#}", wh, s, reference, e));
+        }
+        Ok(Ok(_)) => {
+            witness("caught");
+            let d0 = w.app.dump_wasm_raw(&k0);
+            let d1 = w.app.dump_wasm_raw(&k1);
+            check_native(
+                "rejected_response_is_caught_like_any_other_failure",
+                d0 == vec![(b"handled".to_vec(), b"1".to_vec()), (b"outer".to_vec(), b"1".to_vec())] && d1.is_empty(),
+                || format!("caller {:?} callee {:?}", d0, d1),
+            );
+            let trace = sc::trace_take();
+            let replies = trace.iter().filter(|e| e.entry == "reply").count();
+            check_native("rejected_response_is_caught_like_any_other_failure", replies == 1, || format!("{} replies", replies));
+        }
+    }
+}
+
 pub fn scenarios(_tier: &str) -> Vec<Scenario> {
-    vec![Scenario::new("crafted_strings_every_entry_point", &["rejected", "accepted"], run)]
+    vec![
+        Scenario::new("crafted_strings_every_entry_point", &["rejected", "accepted"], run),
+        Scenario::new("malformed_response_inside_a_caught_submessage", &["caught"], malformed_response_in_a_caught_submessage),
+    ]
 }
